@@ -375,7 +375,7 @@ class SimNet:
 
     def rec_tx(self, conn: SimConn, data: bytes, dropped: bool = False) -> None:
         self.tx_log.append((conn.cid, self.loop.mono, data))
-        if self.tx_hook is not None and not dropped:
+        if self.tx_hook is not None:
             self.tx_hook(conn, data)
         self.rec('net-tx', cid=conn.cid, n=len(data), data=data.hex() if len(data) <= 64 else data[:64].hex() + '..', dropped=dropped)
 
